@@ -22,7 +22,7 @@ ASSUMPTIONS = ['0.0 is the sparse format\'s "pruned" marker: a genuine logit is 
                'the end-to-end leg uses transcriptions with plain single spaces, geometry inside the page; both layouts go through the same decoder and exporter']
 N = {'quick': 500, 'thorough': 30000}
 CLASSES = ['roundtrip', 'roundtrip_bytes', 'subset', 'superset', 'legacy', 'missing_component', 'dense', 'rebuild', 'rebuild', 'empty_page']
-REQUIRED = ['matrices_with_explicitly_stored_zeros', 'refused_saves_over_an_existing_file', 'partial_file_redecodes', 'legacy:characters_only', 'legacy:coords_only', 'roundtrip_lines', 'untouched_checked', 'missing_reported', 'dense_checked', 'rebuild_pages', 'rebuild_lines_decoded', 'rebuild_alto_compared', 'legacy_checked', 'reloads', 'parse_folder_rebuilds', 'float32_lines']
+REQUIRED = ['rebuilds_of_an_imported_and_reordered_layout', 'missing_component_with_a_complete_twin', 'matrices_with_explicitly_stored_zeros', 'refused_saves_over_an_existing_file', 'partial_file_redecodes', 'legacy:characters_only', 'legacy:coords_only', 'roundtrip_lines', 'untouched_checked', 'missing_reported', 'dense_checked', 'rebuild_pages', 'rebuild_lines_decoded', 'rebuild_alto_compared', 'legacy_checked', 'reloads', 'parse_folder_rebuilds', 'float32_lines']
 CHARSETS = [list('abcdefgh '), list('abc '), ['a', 'b', 'é', 'ạ̈', 'שׁ', '\U0001F600', ' '], [chr(0x61 + k) for k in range(26)] + [' ', '.', ',']]
 
 
@@ -143,6 +143,12 @@ def check(case, mon, ctx):
         comp = ['logits', 'characters', 'logit_coords'][case['seed'] % 3]
         setattr(victim, comp, None)
         mon.count('missing_reported')
+        if case['seed'] % 4 == 0:
+            # another, complete line with the same id later on the page (ids repeated per region): the incomplete one is still reported
+            twin = L.TextLine(id=victim.id, baseline=victim.baseline, polygon=victim.polygon, heights=victim.heights, logits=random_sparse(np.random.default_rng(5), 3, 4),
+                              characters=['a', 'b', 'c', '​'], logit_coords=[0, 3])
+            a.regions[-1].lines.append(twin)
+            mon.count('missing_component_with_a_complete_twin')
         for fn in (lambda: a.save_logits_bytes(), lambda: a.save_logits(os.path.join(ctx.tmpdir, 'm.logits'))):
             try:
                 fn()
@@ -303,6 +309,17 @@ def check_rebuild(a, case, mon, ctx):
     # the lines carry a confidence estimate from an earlier stage; PAGE XML stores it rounded to three decimals (0.2996 -> 0.300)
     for k, l in enumerate(a.lines_iterator()):
         l.transcription_confidence = 0.2 + 0.1 * (k % 8) - 0.0004
+    if case['seed'] % 3 == 0:
+        # history: the layout itself was imported from PAGE XML + logits earlier, and its lines were re-ordered in memory since (a reading-order correction)
+        a.to_pagexml(xmlf)
+        a.save_logits(logf)
+        a = L.PageLayout(file=xmlf)
+        a.load_logits(logf)
+        for r in a.regions:
+            r.lines.reverse()
+        for k, l in enumerate(a.lines_iterator()):
+            l.transcription_confidence = 0.2 + 0.1 * (k % 8) - 0.0004
+        mon.count('rebuilds_of_an_imported_and_reordered_layout')
     a.to_pagexml(xmlf)
     a.save_logits(logf)
     b = L.PageLayout(file=xmlf)
